@@ -25,6 +25,7 @@ import (
 
 	"github.com/gobwas/ws"
 	"github.com/gobwas/ws/wsutil"
+	"github.com/internetarchive/Zeno/internal/pkg/archiver"
 	"github.com/internetarchive/Zeno/internal/pkg/config"
 	"github.com/internetarchive/Zeno/internal/pkg/controler"
 	"github.com/internetarchive/Zeno/internal/pkg/controler/pause"
@@ -670,6 +671,29 @@ func runE2E(in map[string]any) string {
 	}
 
 	g0 := runtime.NumGoroutine()
+	// how many spooled body files exist at the same time (sampled): shows that the scenario did spool to disk
+	var maxSpooled int64
+	spoolDone := make(chan struct{})
+	go func() {
+		for {
+			select {
+			case <-spoolDone:
+				return
+			case <-time.After(3 * time.Millisecond):
+				n := int64(0)
+				if es, err := os.ReadDir(c.WARCTempDir); err == nil {
+					for _, e := range es {
+						if strings.HasPrefix(e.Name(), "zeno-") {
+							n++
+						}
+					}
+				}
+				if n > maxSpooled {
+					maxSpooled = n
+				}
+			}
+		}
+	}()
 	controler.Start()
 	started := time.Now()
 	if boolean(in, "announceStart", false) {
@@ -738,7 +762,29 @@ func runE2E(in map[string]any) string {
 		time.Sleep(time.Duration(num(stop, "extraMs", 50)) * time.Millisecond)
 	}
 	report["paused"] = paused
-	report["footprintBeforeStop"] = map[string]any{"goroutines": runtime.NumGoroutine(), "fds": countFDs(), "tracked": len(reactor.GetStateTable())}
+	close(spoolDone)
+	report["maxSpooledBodyFiles"] = maxSpooled
+	lb, lmax := archiver.VerifLimiterTable()
+	tmpFiles := listFiles(c.WARCTempDir)
+	report["footprintBeforeStop"] = map[string]any{"goroutines": runtime.NumGoroutine(), "fds": countFDs(), "tracked": len(reactor.GetStateTable()),
+		"limiterBuckets": lb, "limiterMax": lmax, "tempFiles": tmpFiles, "systemTemp": listFiles(os.TempDir())}
+	if boolean(in, "goroutineProfile", false) {
+		buf := make([]byte, 4<<20)
+		nb := runtime.Stack(buf, true)
+		hist := map[string]int{}
+		for _, g := range strings.Split(string(buf[:nb]), "\n\n") {
+			lines := strings.Split(g, "\n")
+			// the function that created the goroutine, or its top frame
+			key := lines[len(lines)-2]
+			for _, l := range lines {
+				if strings.HasPrefix(l, "created by ") {
+					key = strings.Fields(l)[2]
+				}
+			}
+			hist[key]++
+		}
+		report["goroutineProfile"] = hist
+	}
 	if boolean(stop, "releaseHeld", true) {
 		close(o.gate)
 	}
